@@ -1,7 +1,7 @@
 SPECIFICATION MCSpec
 CONSTANTS
   MaxCalls = 2
-  MaxLevel = 40
+  MaxLevel = 22
 CONSTRAINT MCConstraint
 VIEW MCView
 INVARIANT C19_OrdinaryOutcome
